@@ -2,6 +2,7 @@ package schedseq
 
 import (
 	"os"
+	"strconv"
 	"strings"
 	"testing"
 
@@ -36,6 +37,11 @@ func seqScenario(cfg *config) *mc.Scenario {
 						depth = d
 					}
 				}
+			}
+			// Ad-hoc deeper exploration of selected scenarios (not used by
+			// the tiers): SCHEDSEQ_EXTRA_DEPTH=<n> SCHEDSEQ_EXTRA_MATCH=<substring>.
+			if n, err := strconv.Atoi(os.Getenv("SCHEDSEQ_EXTRA_DEPTH")); err == nil && strings.Contains(cfg.name, os.Getenv("SCHEDSEQ_EXTRA_MATCH")) {
+				depth += n
 			}
 			cur = build(x, cfg, depth)
 		},
